@@ -593,10 +593,12 @@ impl CasObjectInfoV1 {
         let offset_to_boundary_section_offset =
             size_of::<u32>() + size_of_val(&s._buffer) + size_of_val(&s.boundary_section_offset_from_end);
         reader.seek(SeekFrom::End(-(offset_to_boundary_section_offset as i64)))?;
-        let mut boundary_section_offset_from_end = read_u32(reader)?;
+        let boundary_section_offset_from_end = read_u32(reader)?;
 
         // add 4 bytes to offset from info_length at the end
-        boundary_section_offset_from_end += size_of::<u32>() as u32;
+        let boundary_section_offset_from_end = boundary_section_offset_from_end
+            .checked_add(size_of::<u32>() as u32)
+            .ok_or_else(|| CasObjectError::FormatError(anyhow!("Xorb Invalid: boundary section offset out of range.")))?;
         reader.seek(SeekFrom::End(-(boundary_section_offset_from_end as i64)))?;
 
         let mut counting_reader = countio::Counter::new(reader);
@@ -621,11 +623,18 @@ impl CasObjectInfoV1 {
 
         let num_chunks_boundaries_section = read_u32(r)?;
 
-        s.chunk_boundary_offsets.resize(num_chunks_boundaries_section as usize, 0);
-        read_u32s(r, &mut s.chunk_boundary_offsets)?;
+        // Grow with the data actually read; the declared count is not trusted for allocation.
+        s.chunk_boundary_offsets
+            .reserve(prealloc_num_chunks(num_chunks_boundaries_section as usize));
+        for _ in 0..num_chunks_boundaries_section {
+            s.chunk_boundary_offsets.push(read_u32(r)?);
+        }
 
-        s.unpacked_chunk_offsets.resize(num_chunks_boundaries_section as usize, 0);
-        read_u32s(r, &mut s.unpacked_chunk_offsets)?;
+        s.unpacked_chunk_offsets
+            .reserve(prealloc_num_chunks(num_chunks_boundaries_section as usize));
+        for _ in 0..num_chunks_boundaries_section {
+            s.unpacked_chunk_offsets.push(read_u32(r)?);
+        }
 
         // Now the final parts here.
         s.num_chunks = read_u32(r)?;
